@@ -21,7 +21,7 @@ RULE = ("exhaustive: every link table over n sectors (entry = (next in 0..n, end
 FREE, EOF_, RES, RES2 = 0, 0xC000, 0x4000, 0x8000
 
 
-class Hang(Exception):
+class Hang(BaseException):      # BaseException: `except Exception` in library code (construct's stream_read) must not swallow it
     pass
 
 
@@ -31,13 +31,13 @@ def _alarm(*a):
 
 def guarded(f, *a, limit=3):
     signal.signal(signal.SIGALRM, _alarm)
-    signal.alarm(limit)
+    signal.setitimer(signal.ITIMER_REAL, limit, 1.0)
     try:
         return M.impl_res(f, *a)
     except Hang:
         return ("hang",)
     finally:
-        signal.alarm(0)
+        signal.setitimer(signal.ITIMER_REAL, 0)
 
 
 # ---------------------------------------------------------------------------- get_path
